@@ -4,7 +4,9 @@
    *_regress: the witnesses of the round-1 findings fixed in /repo, with the values the property demands. *)
 From Coq Require Import Reals ZArith Bool List.
 From Coquelicot Require Import Coquelicot.
-From ADV Require Import Base.Num C14.ER C14.Model C14.VModel C14.Spec C14.Corr.
+From ADV Require Import Base.Num C14.ER C14.Model C14.VModel C14.SModel C14.Spec C14.Corr.
+From ADV Require C14.ProofsHist.
+Import ProofsHist (hres_inv, twin, bin_fresh, bin_setn_swapped).
 From ADV Require C14.ProofsCont C14.ProofsDisc C14.ProofsNorm C14.ProofsCdf C14.ProofsCdf2 C14.ProofsNorm2 C14.ProofsVec C14.ProofsRegress.
 Import ProofsVec (mvt_pdf, mvn_pdf, student_pdf).
 Import ListNotations.
@@ -319,6 +321,116 @@ Theorem upper_endpoint_regress :
 Proof. exact ProofsRegress.upper_endpoint_regress. Qed.
 
 From Coq Require Import Lra.
+
+(* ---- cache coherence over mutator histories (SModel.v / ProofsHist.v) ----
+   For every family: start from ANY accepted constructor call, apply ANY sequence of the exported mutators
+   (SetParameters p | ImportConfig p | Clone | SetParameters(GetParameters()) | ImportConfig(ExportConfig()) | SetN n,
+   with arbitrary, changing values; refused updates included).  The state reached is exactly the state a
+   fresh constructor builds from the parameters the object then reports (twin new get d := new (get d) = Some d),
+   cached constants included: every method of the object is then the method of that fresh twin.  No history
+   dereferences a nil clone (the False in hres_inv). *)
+Theorem normal_history_coherent :
+  forall (p : list R) d0 (ops : list hop), normal_newv p = Some d0 -> hres_inv False (twin (normal_newv) normal_get) (hrun (normal_ops) d0 ops).
+Proof. exact ProofsHist.normal_hist. Qed.
+
+Theorem exponential_history_coherent :
+  forall (p : list R) d0 (ops : list hop), exp_newv p = Some d0 -> hres_inv False (twin (exp_newv) exp_get) (hrun (exp_ops) d0 ops).
+Proof. exact ProofsHist.exp_hist. Qed.
+
+Theorem laplace_history_coherent :
+  forall (p : list R) d0 (ops : list hop), lap_newv p = Some d0 -> hres_inv False (twin (lap_newv) lap_get) (hrun (lap_ops) d0 ops).
+Proof. exact ProofsHist.lap_hist. Qed.
+
+Theorem pareto_history_coherent :
+  forall (p : list R) d0 (ops : list hop), par_newv p = Some d0 -> hres_inv False (twin (par_newv) par_get) (hrun (par_ops) d0 ops).
+Proof. exact ProofsHist.par_hist. Qed.
+
+Theorem gpareto_history_coherent :
+  forall (p : list R) d0 (ops : list hop), gp_newv p = Some d0 -> hres_inv False (twin (gp_newv) gp_get) (hrun (gp_ops) d0 ops).
+Proof. exact ProofsHist.gp_hist. Qed.
+
+Theorem gev_history_coherent :
+  forall (p : list R) d0 (ops : list hop), gev_newv p = Some d0 -> hres_inv False (twin (gev_newv) gev_get) (hrun (gev_ops) d0 ops).
+Proof. exact ProofsHist.gev_hist. Qed.
+
+Theorem gamma_history_coherent :
+  forall (lgam : R -> R) (p : list R) d0 (ops : list hop), gam_newv lgam p = Some d0 -> hres_inv False (twin (gam_newv lgam) gam_get) (hrun (gam_ops lgam) d0 ops).
+Proof. intro lgam; exact (ProofsHist.gam_hist lgam). Qed.
+
+Theorem beta_history_coherent :
+  forall (lgam : R -> R) (p : list R) d0 (ops : list hop), beta_newv lgam p = Some d0 -> hres_inv False (twin (beta_newv lgam) beta_get) (hrun (beta_ops lgam) d0 ops).
+Proof. intro lgam; exact (ProofsHist.beta_hist lgam). Qed.
+
+Theorem cauchy_history_coherent :
+  forall (p : list R) d0 (ops : list hop), cau_newv p = Some d0 -> hres_inv False (twin (cau_newv) cau_get) (hrun (cau_ops) d0 ops).
+Proof. exact ProofsHist.cau_hist. Qed.
+
+Theorem chisquared_history_coherent :
+  forall (lgam : R -> R) (p : list R) d0 (ops : list hop), chi_newv lgam p = Some d0 -> hres_inv False (twin (chi_newv lgam) chi_get) (hrun (chi_ops lgam) d0 ops).
+Proof. intro lgam; exact (ProofsHist.chi_hist lgam). Qed.
+
+Theorem gengamma_history_coherent :
+  forall (lgam : R -> R) (p : list R) d0 (ops : list hop), gg_newv lgam p = Some d0 -> hres_inv False (twin (gg_newv lgam) gg_get) (hrun (gg_ops lgam) d0 ops).
+Proof. intro lgam; exact (ProofsHist.gg_hist lgam). Qed.
+
+Theorem geometric_history_coherent :
+  forall (p : list R) d0 (ops : list hop), geo_newv p = Some d0 -> hres_inv False (twin (geo_newv) geo_get) (hrun (geo_ops) d0 ops).
+Proof. exact ProofsHist.geo_hist. Qed.
+
+Theorem negbinomial_history_coherent :
+  forall (lgam : R -> R) (p : list R) d0 (ops : list hop), nb_newv lgam p = Some d0 -> hres_inv False (twin (nb_newv lgam) nb_get) (hrun (nb_ops lgam) d0 ops).
+Proof. intro lgam; exact (ProofsHist.nb_hist lgam). Qed.
+
+Theorem poisson_history_coherent :
+  forall (p : list R) d0 (ops : list hop), poi_newv p = Some d0 -> hres_inv False (twin (poi_newv) (fun l => [l])) (hrun (poi_ops) d0 ops).
+Proof. exact ProofsHist.poi_hist. Qed.
+
+Theorem powerlaw_history_coherent :
+  forall (p : list R) d0 (ops : list hop), pl_newv p = Some d0 -> hres_inv False (twin (pl_newv) pl_get) (hrun (pl_ops) d0 ops).
+Proof. exact ProofsHist.pl_hist. Qed.
+
+Theorem delta_history_coherent :
+  forall (p : list R) d0 (ops : list hop), delta_newv p = Some d0 -> hres_inv False (twin (delta_newv) (fun X => [X])) (hrun (delta_ops) d0 ops).
+Proof. exact ProofsHist.delta_hist. Qed.
+
+(* binomial: the one family with an in-place mutator of a cached constant (SetN: n, np1, z in this order) *)
+Theorem binomial_history_coherent :
+  forall (lgam : R -> R) (theta : R) (n : Z) d0 (ops : list hop), bin_new lgam theta n = Some d0 ->
+  hres_inv False (bin_fresh lgam) (hrun (bin_ops lgam) d0 ops).
+Proof. exact ProofsHist.bin_hist. Qed.
+
+(* ... and a coherent binomial state is the fresh state of what it reports (GetParameters()[0] = log theta, GetN() = n) *)
+Theorem binomial_fresh_is_twin :
+  forall (lgam : R -> R) d, bin_fresh lgam d ->
+  forall theta n, 0 <= theta -> i_theta d = elog (Fin theta) -> i_n d = IZR n -> bin_new lgam theta n = Some d.
+Proof. exact ProofsHist.bin_fresh_twin. Qed.
+
+Theorem binomial_setn_fresh :
+  forall (lgam : R -> R) theta n0 n d, bin_new lgam theta n0 = Some d -> (0 <= n)%Z ->
+  exists d', bin_setn lgam d n = HOk d' /\ bin_new lgam theta n = Some d'.
+Proof. exact ProofsHist.bin_setn_fresh. Qed.
+
+(* the seeded regression (z.Lgamma(np1) before np1.SetFloat64): n and np1 are right, z is the normaliser of the OLD n *)
+Theorem binomial_setn_swapped_refuted :
+  forall (lgam : R -> R) theta n0 n d, bin_new lgam theta n0 = Some d -> (0 <= n)%Z ->
+  exists d', bin_setn_swapped lgam d n = HOk d' /\ i_n d' = IZR n /\ i_np1 d' = IZR (n + 1) /\
+             i_z d' = elgam lgam (Fin (IZR (n0 + 1))).
+Proof. exact ProofsHist.bin_setn_swapped_stale. Qed.
+
+Theorem categorical_set_get_clone_identity :
+  forall d : list ER, hstep cat_ops d HGetSet = HOk d /\ hstep cat_ops d HClone = HOk d.
+Proof. exact ProofsHist.cat_roundtrip. Qed.
+
+Example history_ex : exists d0, normal_newv [1; 2] = Some d0 /\
+  exists d, hrun normal_ops d0 [HSet [3; 4]; HSet [0; -1]; HClone; HGetSet; HImp [5; 6]; HExpImp] = HOk d /\ normal_get d = [5; 6].
+Proof.
+  unfold normal_newv, normal_new, P. cbn [nth]. rewrite (ProofsER.Rleb_f 2 0) by lra. eexists. split; [reflexivity|].
+  cbv -[Rleb IZR].
+  repeat (first [ rewrite (ProofsER.Rleb_f 4 0) by lra | rewrite (ProofsER.Rleb_t (-1) 0) by lra
+                | rewrite (ProofsER.Rleb_f 6 0) by lra ]; cbv -[Rleb IZR]).
+  eexists. split; reflexivity.
+Qed.
+
 (* the hypotheses are satisfiable by non-trivial instances *)
 Example normal_valid_ex : normal_valid (1 / 2) 2 /\ gamma_valid (5 / 2) 3 /\ gpareto_valid 0 1 (-1 / 2) /\
   gpareto_support 0 1 (-1 / 2) 1 /\ gev_support 0 1 (1 / 2) 3 /\ powerlaw_valid 3 1 /\ beta_valid (1 / 2) 2.
